@@ -21,6 +21,8 @@ import (
 //	raw        Bytes are written as they are
 //	failnode   node Node fails; survivors are notified
 //	sweep      every node's in-flight table is swept with now = far future (all pending entries expire)
+//	gossip1    (manual gossip mode) deliver pending broadcast number C to node Node
+//	gossipall  (manual gossip mode) deliver every pending broadcast everywhere, repeatedly, until none is left
 type Step struct {
 	Op        string   `json:"op"`
 	C         int      `json:"c,omitempty"`
@@ -74,6 +76,9 @@ type World struct {
 	S        []*Sess
 	Retained map[string]map[string]string // mount point -> topic -> payload
 	connects int
+	// Ambiguous: the script reached a point where two outcomes are both legitimate for the
+	// delivery model (see Apply "idle"); CheckDeliveries stops judging.
+	Ambiguous bool
 	// Deaf: mount points whose delivery expectations are switched off (used by checks that
 	// only look at part of the picture).
 	notes []string
@@ -357,6 +362,15 @@ func (w *World) Apply(st Step) (problem string, inconclusive bool) {
 			}
 		}
 		for _, x := range expired {
+			// a displaced session and the session that displaced it running out of time in the
+			// same instant: whether the displaced one still resolves to the newer one (no will) or
+			// to nothing (will) depends on which teardown the broker happens to run first. Both
+			// are legitimate; deliveries are not judged from here on.
+			for _, o := range expired {
+				if o != x && o.connectSeq > x.connectSeq && o.ClientID == x.ClientID && w.mp(o) == w.mp(x) && x.Will != nil {
+					w.Ambiguous = true
+				}
+			}
 			x.Alive = true
 			w.endSession(x, "timeout")
 		}
@@ -408,6 +422,31 @@ func (w *World) Apply(st Step) (problem string, inconclusive bool) {
 		if !settle() {
 			return
 		}
+	case "gossip1":
+		// manual gossip mode: deliver one collected broadcast (index st.C modulo pending) to node st.Node
+		w.Cl.CollectGossip()
+		if g := w.Cl.Gossip(); len(g) > 0 {
+			idx := st.C % len(g)
+			if idx < 0 {
+				idx = -idx
+			}
+			w.Cl.DeliverGossip(idx, w.Cl.Nodes[st.Node%len(w.Cl.Nodes)])
+		}
+		if !settle() {
+			return
+		}
+	case "gossipall":
+		for r := 0; r < 5; r++ {
+			if !settle() {
+				return
+			}
+			if w.Cl.DeliverAllGossip() == 0 {
+				break
+			}
+		}
+		if !settle() {
+			return
+		}
 	case "sweep":
 		for _, n := range w.Cl.Nodes {
 			if !n.Down {
@@ -427,6 +466,9 @@ func (w *World) Apply(st Step) (problem string, inconclusive bool) {
 // with the model (both directions). Clients on failed nodes and displaced sessions are
 // not judged.
 func (w *World) CheckDeliveries() string {
+	if w.Ambiguous {
+		return ""
+	}
 	for i, s := range w.S {
 		if !s.Connected || s.Displaced || (s.Node != nil && s.Node.Down) {
 			continue
